@@ -811,6 +811,8 @@ def generate(prop, verif_seed, idx, tier="quick", cls=None, recover=False):
             calls.append({"op": "inference", "mgr": src["mgr"], "batch": [[k, t] for k, t in zip(_pick_keys(g, len(texts)), texts)], "multi": False})
     ops.extend(calls)
     knobs = {"svc_scale": g.choice([0.1, 1.0, 1.0, 10.0])}
+    if g.random() < 0.1:
+        knobs["loglevel"] = "INFO"
     doc = {"property": prop, "seed": sseed, "idx": idx, "class": cls, "knobs": knobs, "base": {"text": text, "src": src}, "ops": ops}
     if prop == "C13":
         if cls == "budget":
@@ -890,7 +892,7 @@ def _generate_poison(prop, sseed, idx, g):
     if g.random() < 0.4:
         g.shuffle(again)
     ops.append({"op": "inference", "mgr": 0, "batch": [[k + 1, t] for k, t in enumerate(again)], "multi": False})
-    doc = {"property": prop, "seed": sseed, "idx": idx, "class": "poison", "knobs": {"svc_scale": 1.0}, "base": {"text": text, "src": src}, "ops": ops}
+    doc = {"property": prop, "seed": sseed, "idx": idx, "class": "poison", "knobs": dict({"svc_scale": 1.0}, **({"loglevel": "INFO"} if g.random() < 0.1 else {})), "base": {"text": text, "src": src}, "ops": ops}
     doc["fault_plan"] = {"n": g.choice([1, 1, 2]), "kinds": ["slow"], "ops": [len(ops) - 2], "sites": ["rc2.compute"]}
     return doc
 
@@ -1143,6 +1145,8 @@ def shrink_candidates(doc):
                 yield dict(doc, ops=ops[:i] + [dict(op, latencies=[0.001] * len(op["latencies"]))] + ops[i + 1 :])
     if doc.get("knobs", {}).get("svc_scale", 1.0) != 1.0:
         yield dict(doc, knobs=dict(doc["knobs"], svc_scale=1.0))
+    if doc.get("knobs", {}).get("loglevel"):
+        yield dict(doc, knobs={k: v for k, v in doc["knobs"].items() if k != "loglevel"})
     # 7. smaller fault durations
     for i, f in enumerate(doc["faults"]):
         if f.get("dur") and f["dur"] > 0.01:
